@@ -39,12 +39,14 @@ def cut_points(lines):
     return info
 
 
-def split_once(rng, lines, fname_pool, files, dirs, tags, depth=0):
+def split_once(rng, lines, fname_pool, files, dirs, tags, depth=0, nest_p=0.5, prefer_mute=0):
     """Moves one admissible chunk of `lines` into a new file; returns the new includer line list (or None)."""
     info = cut_points(lines)
     starts = [i for i, ln in enumerate(lines) if ln['k'] == 'label' and ln.get('scope') == 'g' and not ln.get('excluded')
               and info[i]['cond'] == 0 and info[i]['zone_before'] == 'GLOBAL' and i > 0]
     rng.shuffle(starts)
+    if prefer_mute:
+        starts.sort(key=lambda i: 0 if info[i]['mute'] >= prefer_mute else 1)
     for i in starts:
         ends = []
         for j in range(i + 2, len(lines) + 1):
@@ -63,10 +65,12 @@ def split_once(rng, lines, fname_pool, files, dirs, tags, depth=0):
         d = rng.choice(dirs)
         if info[i]['mute'] > 0:
             tags.add('include-while-muted')
+        if info[i]['mute'] >= 2:
+            tags.add('include-at-mute-depth>=2')
         tags.add(f'nesting:{depth + 1}')
         # nested split inside the chunk
-        if depth < 2 and fname_pool and rng.random() < 0.5:
-            sub = split_once(rng, chunk, fname_pool, files, dirs, tags, depth + 1)
+        if depth < 2 and fname_pool and rng.random() < nest_p:
+            sub = split_once(rng, chunk, fname_pool, files, dirs, tags, depth + 1, nest_p)
             if sub is not None:
                 chunk = sub
         files[(d, fn)] = chunk
@@ -89,12 +93,12 @@ class C17(core.Check):
     required_buckets = {b: 3 for b in ['nesting:1', 'nesting:2', 'nesting:3', 'dirs:1', 'dirs:2', 'dirs:3', 'class:metamorphic',
                                        'class:zone-region-continuation', 'class:file-label-isolation',
                                        'neg:included-twice', 'neg:transitively-twice', 'neg:self-include', 'neg:missing-file',
-                                       'neg:ambiguous-name', 'include-while-muted', 'files:3+', 'neg:file-label-of-includer',
+                                       'neg:ambiguous-name', 'include-while-muted', 'include-at-mute-depth>=2', 'files:3+', 'neg:file-label-of-includer',
                                        'neg:file-label-of-included', 'neg:file-label/include-top', 'neg:file-label/include-after-global-label',
                                        'neg:file-label/include-after-local-label', 'neg:file-label/include-after-org',
                                        'neg:file-label/include-nested']}
 
-    def metamorphic(self, rng):
+    def metamorphic(self, rng, nest_p=0.5, prefer_mute=0):
         g = None
         for _ in range(10):
             g = gen_prog.Structured(rng, 16, {'file_labels': False})
@@ -110,7 +114,7 @@ class C17(core.Check):
         files = {}
         tags = {'class:metamorphic', f'dirs:{ndirs}'}
         lines = g.lines
-        main = split_once(rng, lines, pool, files, dirs, tags)
+        main = split_once(rng, lines, pool, files, dirs, tags, 0, nest_p, prefer_mute)
         if main is None:
             return None
         # possibly a second sibling chunk
@@ -205,6 +209,43 @@ class C17(core.Check):
                 'meta': {'class': 'continuation', 'image': img.hex(), 'kind': 'ACCEPT', 'includes': ['inc.asm']},
                 'tags': sorted(tags)}
 
+    def mute_depth_cases(self):
+        """an include reached at mute depth 0..3; the included file changes the depth or not; pasted-in-place semantics"""
+        isa = gen_prog.layout_isa(16)
+        fn, itext = isamod.render_isa(isa, 'json')
+        inc_variants = {'plain': ['.byte $22'], 'unmutes-once': ['.byte $22', '#unmute', '.byte $23'],
+                        'mutes-once': ['.byte $22', '#mute', '.byte $23'],
+                        'balanced': ['#mute', '.byte $22', '#unmute', '.byte $23'],
+                        'unmutes-twice': ['#unmute', '.byte $22', '#emit', '.byte $23']}
+        for depth in (0, 1, 2, 3):
+            for vname, inc in inc_variants.items():
+                for after in (0, 1, 2, 3):
+                    main = ['.byte $11'] + ['#mute'] * depth + ['#include "m.asm"'] + ['.byte $31']
+                    for k in range(after):
+                        main += ['#unmute', f'.byte ${0x41 + k:02x}']
+                    main += ['#unmute'] * 4 + ['.byte $7e']
+                    flat = []
+                    for t in main:
+                        flat += inc if t.startswith('#include') else [t]
+                    # model: a counter; a byte is emitted iff the counter is 0
+                    m, out = 0, []
+                    for t in flat:
+                        if t == '#mute':
+                            m += 1
+                        elif t in ('#unmute', '#emit'):
+                            m = max(0, m - 1)
+                        else:
+                            out.append(int(t.split('$')[1], 16) if m == 0 else 0)
+                    yield {'runs': [{'files': {fn: itext, 'p.asm': '\n'.join(main) + '\n', 'm.asm': '\n'.join(inc) + '\n'},
+                                     'argv': ['compile', '-c', fn, 'p.asm', '-o', 'out.bin'], 'probes': ['steps', 'files'],
+                                     'step_limit': 500000},
+                                    {'files': {fn: itext, 'p.asm': '\n'.join(flat) + '\n'},
+                                     'argv': ['compile', '-c', fn, 'p.asm', '-o', 'out.bin'], 'probes': ['steps'], 'step_limit': 500000}],
+                           'meta': {'class': 'metamorphic', 'image': bytes(out).hex(), 'kind': 'ACCEPT', 'includes': ['m.asm']},
+                           'tags': sorted({'class:mute-depth', f'include-at-mute-depth:{depth}', 'included-file:' + vname,
+                                           'include-while-muted' if depth else 'include-unmuted',
+                                           'include-at-mute-depth>=2' if depth >= 2 else 'include-at-mute-depth<2'})}
+
     def negative(self, rng, kind):
         isa = gen_prog.layout_isa(16)
         fn, itext = isamod.render_isa(isa, 'json')
@@ -270,9 +311,13 @@ class C17(core.Check):
         n = 250 if tier == 'quick' else 5000
         for i in range(n_pre + n):
             rng = core.rng_for(0 if i < n_pre else seed, self.pid, i)
-            c = self.metamorphic(rng) if i % 3 else self.continuation(rng)
+            if i < n_pre:
+                c = self.metamorphic(rng, 0.95 if i % 2 else 0.5, 2 if i % 4 == 1 else 0) if i % 3 else self.continuation(rng)
+            else:
+                c = self.metamorphic(rng) if i % 3 else self.continuation(rng)
             if c:
                 yield c
+        yield from self.mute_depth_cases()
         negs = ['included-twice', 'transitively-twice', 'self-include', 'missing-file', 'ambiguous-name']
         for i in range(25 if tier == 'quick' else 100):
             rng = core.rng_for(0, self.pid, 'neg', i)
